@@ -20,7 +20,7 @@ ASSUMPTIONS = ["moduli are representable in the key dtype and small (one bucket 
 ANCHORS = ["hashtable.py::Counter.count", "hashtable.py::Counter.__init__", "raggedshape.py::ViewBase.ravel_multi_index", "raggedshape.py::RaggedView._get_flat_indices_fast",
            "raggedshape.py::ViewBase.empty_rows_removed", "hashtable.py::HashTable.__getitem__"]
 FLOOR_TAGS = ["init:default", "init:scalar0", "init:scalar", "init:array", "init:array-fractional", "init:array-uint64", "batch:empty", "batch:nokey", "batch:onlykeys", "batch:mixed", "batch:heavy", "batch:collide",
-              "batch:wide", "batch:pylist", "batch:othersign", "batch:huge", "keys>=33", "mod:1", "mod:None", "mod:explicit", "state:first-hit-on-scalar0", "state:first-hit-on-scalar", "state:array", "no-hit-call"]
+              "batch:wide", "batch:pylist", "batch:run-length-encoded", "batch:othersign", "batch:huge", "keys>=33", "mod:1", "mod:None", "mod:explicit", "state:first-hit-on-scalar0", "state:first-hit-on-scalar", "state:array", "no-hit-call"]
 FLOOR_MONITORS = ["c12:batch", "c12:twin-read-at-end", "c12:twin-one-batch", "c12:twin-resplit", "c12:twin-modulus"]
 FP_STRICT = True       # a floating-point event inside the library that the dense computation does not have is a violation (shard.FpMonitor)
 N_RANDOM = {"quick": 7500, "thorough": 100000}
@@ -58,7 +58,10 @@ def expand(b, case):
 def samples_of(b, kd):
     if b.get("pylist"):
         return list(b["samples"])
-    return np.array(b["samples"], dtype=b.get("sdtype") or (kd if kd else np.int64))
+    arr = np.array(b["samples"], dtype=b.get("sdtype") or (kd if kd else np.int64))
+    if b.get("as_rla") and len(arr):
+        return CTX.lib.RunLengthArray.from_array(arr)        # a run-length encoded batch (accepted: it converts to its dense form)
+    return arr
 
 
 def totals(cn, case):
@@ -89,6 +92,8 @@ def run(case):
         tags.append("batch:" + b["kind"])
         if b.get("pylist"):
             tags.append("batch:pylist")
+        if b.get("as_rla"):
+            tags.append("batch:run-length-encoded")
         s = b["samples"]
         nh = sum(1 for x in s if x in model)
         if nh == 0:
@@ -250,8 +255,16 @@ def gen_history(rng, tier, kd="pick", init=None, mod="pick", nb=None):
             s = [rng.choice(keys) if rng.random() < 0.5 else nonkey() for _ in range(L)]
         s = [x for x in s if x is not None]
         rng.shuffle(s)
+        if rng.random() < 0.12 and s:
+            # the batch arrives run-length encoded: runs of different lengths, in a wider dtype with values the key dtype cannot hold in between
+            s = [x for x in s for _ in range(rng.randint(1, 4))]
+            if widenable and "sdtype" not in b:
+                s = [x if rng.random() < 0.8 else rng.choice([hi + 5, lo - 7, hi + 300]) for x in s]
+                s = [x for x in s if -2 ** 63 <= x < 2 ** 63]
+                b["sdtype"] = "int64"
+            b["as_rla"] = True
         b["samples"] = s
-        if kind not in ("wide",) and rng.random() < 0.2 and all(-2 ** 63 <= x < 2 ** 63 for x in s) and kd != "uint64":
+        if kind not in ("wide",) and not b.get("as_rla") and rng.random() < 0.2 and all(-2 ** 63 <= x < 2 ** 63 for x in s) and kd != "uint64":
             b["pylist"] = True
         batches.append(b)
     total = sum(len(b["samples"]) for b in batches)
@@ -275,7 +288,7 @@ def directed():
         yield {"keys": keys, "kdtype": "int64", "mod": None, "mod2": 3, "init": ini, "perm": [], "cuts": [2, 5],
                "batches": [{"kind": "onlykeys", "samples": [3, 11]}, {"kind": "heavy", "samples": [7, 7, 7, 7]}, {"kind": "mixed", "samples": [7, 99, 7, 55]}]}
     # one call with more samples than any internal chunk size (formula-generated; 100001 and 250001 are not multiples of 100000)
-    for n_ in (100001, 250001):
+    for n_ in (100001, 250001, 65536, 131072, 65535, 65537):        # also exactly on / next to a power-of-two block size
         for init in ("default", [2, 0, 1, 5, 0]):
             yield {"keys": [3, 7, 11, 20, 41], "kdtype": "int64", "mod": None, "mod2": 3, "init": init, "perm": [], "cuts": [1000, 100000, 100001],
                    "batches": [{"kind": "huge", "gen": {"n": n_, "mult": 3, "extra": [5, 99, -4]}}]}
